@@ -305,3 +305,25 @@ mutant("C13-M9", "C13", "R13c", "value read under a different population", M, "M
 mutant("C13-M10", "C13", "R13a", "get_prop_coverage bypasses get_prop_covered", PR, "ProgramSet.get_prop_coverage", "prop_coverage[prog.name] = prog.get_prop_covered(tvec, capacities[prog.name], num_eligible[prog.name])", "prop_coverage[prog.name] = capacities[prog.name] / num_eligible[prog.name]")
 twin("C13-T1", "C13", "arguments passed by keyword in another order", RS, "Result.get_coverage", "get_capacities(tvec=self.t, dt=self.dt, instructions=self.model.program_instructions)", "get_capacities(instructions=self.model.program_instructions, dt=self.dt, tvec=self.t)")
 twin("C13-T2", "C13", "arguments passed positionally", RS, "Result.get_coverage", "get_capacities(tvec=self.t, dt=self.dt, instructions=self.model.program_instructions)", "get_capacities(self.t, self.dt, self.model.program_instructions)")
+
+# =============================================================================================== C14
+OP = "atomica/optimization.py"
+mutant("C14-M1", "C14", "R14a", "final assert deleted", OP, "constrain_sum_bounded", "    assert np.isclose(sol.sum(), s), f\"FAILED as {sol} has a total of {sol.sum()} which is not sufficiently close to the target value {s}\"\n", "")
+mutant("C14-M2", "C14", "R14a", "clip deleted", OP, "constrain_sum_bounded", "sol = np.minimum(np.maximum(res[\"x\"], lb_scaled), ub_scaled) * s", "sol = res[\"x\"] * s")
+mutant("C14-M3", "C14", "R14b", "success test deleted", OP, "constrain_sum_bounded", "    if not res[\"success\"]:\n        logger.warning(\"constrain_sum_bounded() failed - rejecting proposed parameters\")\n        raise FailedConstraint()\n", "")
+mutant("C14-M4", "C14", "R14c", "minimum-spend comparison deleted", OP, "TotalSpendConstraint.get_hard_constraint", "            if minimum_spend > hard_constraints[\"initial_total_spend\"][t]:", "            if False:")
+mutant("C14-M5", "C14", "R14c", "hard constraints computed after the optimiser", edits=[
+    dict(file=OP, func="optimize", old="    if not hard_constraints:\n        hard_constraints = optimization.get_hard_constraints(x0, model.program_instructions)  # The optimization passed in here knows how to calculate the hard constraints based on the program instructions\n", new=""),
+    dict(file=OP, func="optimize", old="    optimization.update_instructions(x_opt, model.program_instructions)\n", new="    if not hard_constraints:\n        hard_constraints = optimization.get_hard_constraints(x0, model.program_instructions)\n    optimization.update_instructions(x_opt, model.program_instructions)\n"),
+])
+mutant("C14-M6", "C14", "R14d", "package proportions written without constrain_sum_bounded", OP, "SpendingPackageAdjustment.update_instructions", "        fracs = constrain_sum_bounded(fracs, 1, self.min_props, self.max_props)\n", "")
+mutant("C14-M7", "C14", "R14a", "early return without the bounds test", OP, "constrain_sum_bounded", "if np.all((x0_scaled >= lb_scaled) & (x0_scaled <= ub_scaled)) and np.isclose(x0_scaled.sum(), 1):", "if np.isclose(x0_scaled.sum(), 1):")
+mutant("C14-M8", "C14", "R14b", "FailedConstraint not mapped to inf", OP, "_objective_fcn", "    except FailedConstraint:\n        return np.inf  # Return an objective of `np.inf` if the constraints could not be satisfied by ``x``", "    except FailedConstraint:\n        pass")
+mutant("C14-M9", "C14", "R14c", "initial-objective check removed", OP, "optimize", "    if not np.isfinite(initial_objective):\n        raise InvalidInitialConditions(\"Optimization cannot begin because the objective function was %s for the specified initialization\" % (initial_objective))\n", "")
+mutant("C14-M10", "C14", "R14d", "package constrained to the wrong bounds", OP, "SpendingPackageAdjustment.update_instructions", "constrain_sum_bounded(fracs, 1, self.min_props, self.max_props)", "constrain_sum_bounded(fracs, 1, self.max_props, self.max_props)")
+mutant("C14-M11", "C14", "R14e", "upper bounds collected in a separate pass", OP, "TotalSpendConstraint.constrain_instructions", "                lb.append(low)\n                ub.append(high)\n", "                lb.append(low)\n            for prog in sorted(progs):\n                ub.append(hard_constraints[\"bounds\"][t][prog][1])\n")
+mutant("C14-M12", "C14", "R14a", "early return checks only the upper bound", OP, "constrain_sum_bounded", "np.all((x0_scaled >= lb_scaled) & (x0_scaled <= ub_scaled))", "np.all(x0_scaled <= ub_scaled)")
+mutant("C14-M13", "C14", "R14c", "maximum-spend accumulates lower bounds", OP, "TotalSpendConstraint.get_hard_constraint", "                        maximum_spend += hard_constraints[\"bounds\"][t][prog][1]", "                        maximum_spend += hard_constraints[\"bounds\"][t][prog][0]")
+twin("C14-T1", "C14", "assert -> if not ...: raise FailedConstraint()", OP, "constrain_sum_bounded", "    assert np.isclose(sol.sum(), s), f\"FAILED as {sol} has a total of {sol.sum()} which is not sufficiently close to the target value {s}\"\n", "    if not np.isclose(sol.sum(), s):\n        raise FailedConstraint()\n")
+twin("C14-T2", "C14", "np.clip(res['x'], lb_scaled, ub_scaled)", OP, "constrain_sum_bounded", "sol = np.minimum(np.maximum(res[\"x\"], lb_scaled), ub_scaled) * s", "sol = np.clip(res[\"x\"], lb_scaled, ub_scaled) * s")
+twin("C14-T3", "C14", "success test written positively", OP, "constrain_sum_bounded", "    if not res[\"success\"]:\n        logger.warning(\"constrain_sum_bounded() failed - rejecting proposed parameters\")\n        raise FailedConstraint()\n", "    if res[\"success\"]:\n        pass\n    else:\n        raise FailedConstraint()\n")
